@@ -34,6 +34,8 @@ def main():
     faulthandler.register(signal.SIGUSR1, all_threads=True)  # hang diagnosis: thread dump into the .err file
     if os.environ.get("XV_DEBUG"):
         logging.basicConfig(level=logging.DEBUG)
+    elif os.environ.get("XV_LOGLEVEL"):
+        logging.basicConfig(level=getattr(logging, os.environ["XV_LOGLEVEL"]))
     else:
         logging.disable(logging.CRITICAL)
     from experimaestro import experiment
@@ -69,6 +71,17 @@ def main():
                 outs[j] = t.submit()
                 tasks[j] = t
                 note(progress, f"submitted {spec['x']} {t.__xpm__.job.path}")
+                fut = getattr(t.__xpm__.job, "_future", None)
+                if fut is not None:
+                    # a scheduling coroutine that dies with an exception is otherwise silent
+                    def report(f, x=spec["x"]):
+                        if not f.cancelled() and f.exception() is not None:
+                            import traceback
+
+                            e = f.exception()
+                            note(progress, f"job-coroutine-died {x} {e!r} :: " + " | ".join(traceback.format_exception(type(e), e, e.__traceback__)[-3:]).replace("\n", " "))
+
+                    fut.add_done_callback(report)
             note(progress, "submitted-all")
     except FailedExperiment:
         outcome = "FailedExperiment"
